@@ -266,6 +266,12 @@ func (u *Unit) checkExit(st *State, fr *Frame) {
 			g := sev.expr(e.Expr)
 			u.emit(st, fmt.Sprintf("post_panic#%d", i), g.T, e.Text)
 		}
+		for i, e := range u.c.EnsuresPanicLoc {
+			sev := u.specEv(st, pos, u.name+" ensures_panic_local")
+			u.bindEntryParams(sev, st)
+			g := sev.expr(e.Expr)
+			u.emit(st, fmt.Sprintf("post_panic_local#%d", i), g.T, e.Text)
+		}
 		if u.c.HasMod {
 			u.frameCheck(st, pos)
 		}
@@ -309,6 +315,12 @@ func (u *Unit) checkExit(st *State, fr *Frame) {
 		s2.binds = copyBinds(sev.binds)
 		g := s2.expr(e.Expr)
 		u.emit(st, fmt.Sprintf("post#%d", i), g.T, e.Text)
+	}
+	for i, e := range u.c.EnsuresLocal {
+		s2 := *sev
+		s2.binds = copyBinds(sev.binds)
+		g := s2.expr(e.Expr)
+		u.emit(st, fmt.Sprintf("post_local#%d", i), g.T, e.Text)
 	}
 	if u.c.HasMod {
 		u.frameCheckWith(st, pos, sev.binds)
